@@ -46,6 +46,11 @@ def run(tier):
     for i in range(n):
         name, prof = profs[i % len(profs)]
         src, mods = progs.generate(rng.fork(str(i)), prof)
+        if i % 3 == 2:
+            from ..gen import feat_ctx
+            src, mods, ctx = feat_ctx.nest(src, mods, rng.fork("nest/%d" % i))
+            name = "%s[%s]" % (name, ">".join(ctx))
+            ck.count("nested_programs")
         plist.append({"name": "%s/%d" % (name, i), "steps": [("snip", src)], "mods": mods})
     checked, discarded = modelcheck.check_programs(ck, plist, opts=opts, on_result=seen)
     ck.coverage["profile_programs_checked"] = checked
